@@ -15,6 +15,8 @@ namespace {
 static uint64_t g_rng_base = 0; static std::mutex g_mu; static std::map<std::pair<int, uint64_t>, uint64_t> g_ctr;
 static uint64_t rng_seed(int site, uint64_t ctx) { std::lock_guard<std::mutex> lk(g_mu); uint64_t k = g_ctr[{site, ctx}]++; return hash_combine(hash_combine(g_rng_base, (uint64_t)site), hash_combine(ctx, k)); }
 
+static double g_limit = 1e300;
+static void on_phase(int tag, const std::vector<cell_ptr>* lp) { if (tag == 8 && tis::blown_up(*lp, g_limit)) throw tis::unstable_run(); }
 struct CellState { std::vector<std::array<double, 3>> X; std::vector<char> used; std::vector<std::array<unsigned, 3>> T; double V = 0, p = 0, Vt = 0, K = 0; unsigned id = 0; };
 struct State { std::vector<CellState> cells; long iters = 0; std::string exc; };
 
@@ -26,12 +28,14 @@ static State run(const tis::Scenario& s0, const std::array<double, 3>& t, uint64
     try {
         std::vector<cell_ptr> cells = tis::build_cells(s);
         tis::msolver sv(s.P, cells, 1, true, false);
-        while (!sv.finished()) { sv.run_iteration(); st.iters++; }
+        while (!sv.finished()) { sv.run_iteration(); st.iters++;
+            if (getenv("VH_TRACE")) { for (auto& cp : sv.cells()) { double mx = 0; for (const node& n : cell_tester::nodes(*cp)) if (n.is_used()) mx = std::max({mx, std::fabs(n.pos().dx()), std::fabs(n.pos().dy()), std::fabs(n.pos().dz())}); fprintf(stderr, "it %ld cell %u type %s faces %zu V %.3e Vt %.3e p %.3e maxcoord %.3e\n", st.iters, cp->get_id(), cp->get_cell_type()->name_.c_str(), cp->get_nb_of_faces(), cp->get_volume(), cp->get_target_volume(), cp->get_pressure(), mx); } } }
         for (auto& cp : sv.cells()) { CellState cs; cs.V = cp->get_volume(); cs.p = cp->get_pressure(); cs.Vt = cp->get_target_volume(); cs.id = cp->get_id(); cs.K = cp->get_cell_type()->bulk_modulus_;
             for (const node& n : cell_tester::nodes(*cp)) { cs.X.push_back({n.pos().dx() - t[0], n.pos().dy() - t[1], n.pos().dz() - t[2]}); cs.used.push_back(n.is_used()); }
             for (const face& f : cell_tester::faces(*cp)) if (f.is_used()) cs.T.push_back({cell_tester::n1(f), cell_tester::n2(f), cell_tester::n3(f)});
             st.cells.push_back(cs); }
     } catch (const std::exception& e) { st.exc = e.what(); }
+    catch (const tis::unstable_run&) { st.exc = "unstable: coordinates exploded"; }
     std::error_code ec; std::filesystem::remove_all(out, ec); return st;
 }
 
@@ -47,7 +51,7 @@ static double compare(const State& a, const State& b, double& relVp) {
 }
 
 static std::string one_case(const Args& a, long i) {
-    Rng g(a.seed, (uint64_t)i, 0x14); Case c(i); verif::get().rng_seed = rng_seed;
+    Rng g(a.seed, (uint64_t)i, 0x14); Case c(i); verif::get().rng_seed = rng_seed; verif::get().phase = on_phase;
     int iters = g.range((int)a.geti("min_iterations", 20), (int)a.geti("max_iterations", 40));
     int what = (int)(i % 7); tis::Scenario s = tis::make_scenario(g, what, iters, false);
     // tissue extent and voxel size of the contact grid
@@ -55,7 +59,9 @@ static std::string one_case(const Args& a, long i) {
     double L = std::max({hi[0] - lo[0], hi[1] - lo[1], hi[2] - lo[2]}); double voxel = 3 * s.P.min_edge_len_ + 2 * std::max(s.P.contact_cutoff_adhesion_, s.P.contact_cutoff_repulsion_);
     uint64_t base = hash_combine(a.seed, (uint64_t)i); std::string out = "tr_out_" + std::to_string(i) + "_" + std::to_string((long)getpid());
     std::array<double, 3> zero = {0, 0, 0};
+    g_limit = tis::extent_limit(s) * 100;   // translations reach 32 extents
     State ref = run(s, zero, 0, 0, base, out);
+    if (ref.exc.rfind("unstable", 0) == 0) { c.v = "skip"; c.msg = "unstable simulation (coordinates exploded): not a subject of this property"; c.obs.s("family", s.family).b("ill_conditioned", true); return c.line(); }
     // conditioning of the reference: two noise twins
     State r1 = run(s, zero, 1, 1e-13, base, out), r2 = run(s, zero, 2, 1e-13, base, out);
     double vp; double sR = std::max(compare(ref, r1, vp), compare(ref, r2, vp)); bool structR = compare(ref, r1, vp) < 0 || compare(ref, r2, vp) < 0;
